@@ -47,10 +47,13 @@ def origin0 (c : SocAxi) : Nat := (c.regions.head?.map (·.1)).getD 0
 
 def topology (c : SocAxi) : Wishbone.Topology := Wishbone.busTopology c.n c.m c.origin0 c.kind
 
-/-- Parameters handed to the interconnect class. -/
+/-- Parameters handed to the interconnect class.  The decoders are applied to `addr[shift:]`, a signal of
+    `aw - shift` bits: the predicate is only ever evaluated on word addresses below `2^(aw - shift)`, which the model
+    states explicitly (it is what makes "accepted regions ⇒ disjoint decoders" a theorem, `axl_soc_accepted_disjoint`). -/
 def cfg (c : SocAxi) : Cfg :=
   { n := c.n, m := c.m,
-    dec := Wishbone.decOfSpecs c.dw c.aw (c.regions.map fun p => Wishbone.DecSpec.region p.1 p.2),
+    dec := fun j a => decide (a < 2 ^ (c.aw - Nat.log2 (c.dw / 8))) &&
+             Wishbone.decOfSpecs c.dw c.aw (c.regions.map fun p => Wishbone.DecSpec.region p.1 p.2) j a,
     shift := Nat.log2 (c.dw / 8), full := c.full }
 
 def fabric (c : SocAxi) : Fabric :=
